@@ -56,6 +56,48 @@ def run(ctx):
                     for q in find_all(a["pat"], lambda n: n.get("k") in ("tstruct", "path")):
                         unsched.add((q.get("path") or q.get("p")).split("::")[-1])
     scheduled = rf - unsched
+    # shape-independent reading of is_scheduled from its MIR: per Instruction variant, follow the switch on the
+    # discriminant to the value returned: a constant, or `role(instruction) == RFControl`
+    variants = [v["n"] for v in db.adts[INSTRUCTION]["variants"]]
+    by_mir = None
+    b0 = issch.blocks[0]["t"]
+    if b0["k"] == "switch" and fn_expr_operand(issch, b0["d"])[0] == "discr":
+        by_mir = {}
+        for idx, vname in enumerate(variants):
+            tgt = next((t_ for v_, t_ in b0["ts"] if int(v_) == idx), b0["else"])
+            verdict = None
+            seen_ = set()
+            bb_ = tgt
+            while bb_ is not None and bb_ not in seen_ and verdict is None:
+                seen_.add(bb_)
+                blk = issch.blocks[bb_]
+                for st in blk["s"]:
+                    if st["k"] == "assign" and st["p"]["l"] == 0 and not st["p"]["pr"] and st["rv"]["k"] == "use" and "k" in st["rv"]["o"]:
+                        verdict = st["rv"]["o"]["k"].get("s") == "true"
+                t_ = blk["t"]
+                if verdict is not None:
+                    break
+                if t_["k"] == "goto":
+                    bb_ = t_["t"]
+                elif t_["k"] == "call":
+                    c_ = t_.get("f", {}).get("k", {}).get("fn", {})
+                    nm = c_.get("name")
+                    if nm == "eq" and t_["dest"]["l"] == 0:
+                        e_ = fn_expr_operand(issch, t_["args"][0])
+                        verdict = "role" if (e_[0] == "call" and e_[1].endswith("::role")) else "?"
+                        break
+                    bb_ = t_.get("t")
+                else:
+                    verdict = "?"
+            by_mir[vname] = verdict
+        if any(v_ == "?" or v_ is None for v_ in by_mir.values()):
+            by_mir = None
+    if by_mir is not None:
+        scheduled = {v_ for v_, r_ in by_mir.items() if r_ is True or (r_ == "role" and v_ in rf)}
+        # WAIT is scheduled by the handler but is not an instruction with a duration (the graph builder rejects it)
+        scheduled.discard("Wait")
+    else:
+        res.undecided.append("is_scheduled: shape not recognised from MIR; fell back to the role table minus literal `false` arms")
     res.analysed["scheduled_rf_kinds"] = sorted(scheduled)
     res.count("scheduled_rf_kinds", len(scheduled), floor=10)
     # duration table from syntax
